@@ -250,14 +250,21 @@ IsDrift(f) == f.drift
 PrintAll(fs0) == \E fs \in {fs0} : \A j \in 1..Len(fs) : PrintT(<<(IF IsDrift(fs[j]) THEN "DRIFTV" ELSE "VIOL"), fs[j].sig, l, fs[j].d>>)
 Sigs(fs) == {fs[j].key : j \in 1..Len(fs)}
 Rewrap(s) == "C19|after-restore|" \o s
-\* what differs: only owner ids the property does not constrain (those of pseudo directories; the global
-\* mapping is applied to them by LOOKUP), or something else
+\* what differs between two runs that both satisfy every obligation of the step: only ids the property does
+\* not constrain (owner ids of pseudo directories and of negative entries, SETATTR owner fields whose valid bit
+\* is clear; the library applies the mappings to them as well), or something else
 NoIds(e) == [f \in DOMAIN e \ {"uid", "gid"} |-> e[f]]
 RepNoIds(rep) == [f \in DOMAIN rep |-> IF f \in {"entry", "attr"} THEN NoIds(rep[f])
                                        ELSE IF f = "entries" THEN [j \in 1..Len(rep[f]) |-> NoIds(rep[f][j])] ELSE rep[f]]
+DirentNoIds(d) == [f \in DOMAIN d |-> IF f = "entry" THEN NoIds(d[f]) ELSE d[f]]
+RetNoIds(r) == [f \in DOMAIN r \ {"uid", "gid"} |->
+                  IF f = "entry" THEN NoIds(r[f]) ELSE IF f = "entries" THEN [j \in 1..Len(r[f]) |-> DirentNoIds(r[f][j])] ELSE r[f]]
+CallNoIds(c) == [f \in DOMAIN c \ {"ctx", "owner"} |-> IF f = "ret" THEN RetNoIds(c[f]) ELSE c[f]]
 DiffClass(a, b) ==
-  IF "rep" \in DOMAIN a /\ "rep" \in DOMAIN b /\ a.calls = b.calls /\ RepNoIds(a.rep) = RepNoIds(b.rep)
-  THEN "owner-ids-differ-from-unsaved-run|" \o (IF a.calls = <<>> THEN "pseudo" ELSE "backend") \o (IF IsMap(gmap) THEN "|global-map" ELSE "|no-global-map")
+  IF "rep" \in DOMAIN a /\ "rep" \in DOMAIN b /\ Len(a.calls) = Len(b.calls)
+     /\ [j \in 1..Len(a.calls) |-> CallNoIds(a.calls[j])] = [j \in 1..Len(b.calls) |-> CallNoIds(b.calls[j])]
+     /\ RepNoIds(a.rep) = RepNoIds(b.rep)
+  THEN "unconstrained-ids-differ-from-unsaved-run|" \o (IF a.calls = <<>> THEN "pseudo" ELSE "backend") \o (IF IsMap(gmap) THEN "|global-map" ELSE "|no-global-map")
   ELSE "differs-from-unsaved-run"
 \* what is reported for step k with observed outcome `out` and failed obligations fs
 Report(k, op, out, fs) ==
